@@ -1,5 +1,6 @@
 #![allow(dead_code)]
 mod dump;
+mod gen_c06;
 mod gen_c12;
 mod util;
 
@@ -20,6 +21,7 @@ fn main() {
         }
         Some("gen") => match args.get(2).map(|s| s.as_str()) {
             Some("c12") => gen_c12::gen(&mut out, seed, thorough),
+            Some("c06") => gen_c06::gen(&mut out, seed, thorough),
             _ => {
                 eprintln!("unknown generator");
                 std::process::exit(2);
